@@ -514,7 +514,8 @@ def call_external(I, st, dotted, args, kwargs, node):
                 return I.new_dict(st, base[1], dom=I.dom_of(st, v), vals=I.vals_of(st, v))
         raise Unsupported("copy of %s" % ty_str(v.ty))
     if dotted == "uuid.uuid4":
-        r = st.fresh(StrS, "uuid")
+        from .vtypes import IdS
+        r = st.fresh(IdS, "uuid")
         st.ghost_fresh_ids.append(r) if hasattr(st, "ghost_fresh_ids") else None
         return Val("Any", st.fresh(RefS, "uuidobj"), extra=("uuid", r))
     if dotted == "time.time":
